@@ -24,38 +24,52 @@ import (
 
 // space bundles the public API of one RGB space so that generic code can drive all four.
 type space struct {
-	name       string
-	from8      func(uint8) float32
-	from16     func(uint16) float32
-	to8        func(float32) uint8
-	to16       func(float32) uint16
-	fromNRGBA  func(color.NRGBA) (lin [3]float32, a float32)
-	fromRGBA   func(color.RGBA) (lin [3]float32, a float32)
-	fromEnc    func(color.Color) (lin [3]float32, a float32)
-	fromLinCol func(color.Color) (lin [3]float32, a float32)
-	toNRGBA    func(lin [3]float32, a float32) color.NRGBA
-	toRGBA     func(lin [3]float32, a float32) color.RGBA
-	toRGBA64   func(lin [3]float32, a float32) color.RGBA64
+	name        string
+	from8       func(uint8) float32
+	from16      func(uint16) float32
+	to8         func(float32) uint8
+	to16        func(float32) uint16
+	fromNRGBA   func(color.NRGBA) (lin [3]float32, a float32)
+	fromRGBA    func(color.RGBA) (lin [3]float32, a float32)
+	fromEnc     func(color.Color) (lin [3]float32, a float32)
+	fromLinCol  func(color.Color) (lin [3]float32, a float32)
+	toNRGBA     func(lin [3]float32, a float32) color.NRGBA
+	toRGBA      func(lin [3]float32, a float32) color.RGBA
+	toRGBA64    func(lin [3]float32, a float32) color.RGBA64
 	toLinRGBA64 func(lin [3]float32, a float32) color.RGBA64
-	toXYZ      func(lin [3]float32) ciexyz.Color
-	fromXYZ    func(ciexyz.Color) [3]float32
-	linearise  func(color.Color) color.RGBA64
-	encode     func(color.Color) color.RGBA64
-	prim       [3]ciexyy.Color
-	white      ciexyy.Color
+	toXYZ       func(lin [3]float32) ciexyz.Color
+	fromXYZ     func(ciexyz.Color) [3]float32
+	linearise   func(color.Color) color.RGBA64
+	encode      func(color.Color) color.RGBA64
+	prim        [3]ciexyy.Color
+	white       ciexyy.Color
 }
 
 var spaces = []space{
 	{
 		name: "srgb", from8: srgb.From8Bit, from16: srgb.From16Bit, to8: srgb.To8Bit, to16: srgb.To16Bit,
-		fromNRGBA: func(c color.NRGBA) ([3]float32, float32) { x, a := srgb.ColorFromNRGBA(c); return [3]float32{x.R, x.G, x.B}, a },
-		fromRGBA:  func(c color.RGBA) ([3]float32, float32) { x, a := srgb.ColorFromRGBA(c); return [3]float32{x.R, x.G, x.B}, a },
-		fromEnc:   func(c color.Color) ([3]float32, float32) { x, a := srgb.ColorFromEncodedColor(c); return [3]float32{x.R, x.G, x.B}, a },
-		fromLinCol: func(c color.Color) ([3]float32, float32) { x, a := srgb.ColorFromLinearColor(c); return [3]float32{x.R, x.G, x.B}, a },
-		toNRGBA:   func(l [3]float32, a float32) color.NRGBA { return srgb.ColorFromLinear(l[0], l[1], l[2]).ToNRGBA(a) },
-		toRGBA:    func(l [3]float32, a float32) color.RGBA { return srgb.ColorFromLinear(l[0], l[1], l[2]).ToRGBA(a) },
-		toRGBA64:  func(l [3]float32, a float32) color.RGBA64 { return srgb.ColorFromLinear(l[0], l[1], l[2]).ToRGBA64(a) },
-		toLinRGBA64: func(l [3]float32, a float32) color.RGBA64 { return srgb.ColorFromLinear(l[0], l[1], l[2]).ToLinearRGBA64(a) },
+		fromNRGBA: func(c color.NRGBA) ([3]float32, float32) {
+			x, a := srgb.ColorFromNRGBA(c)
+			return [3]float32{x.R, x.G, x.B}, a
+		},
+		fromRGBA: func(c color.RGBA) ([3]float32, float32) {
+			x, a := srgb.ColorFromRGBA(c)
+			return [3]float32{x.R, x.G, x.B}, a
+		},
+		fromEnc: func(c color.Color) ([3]float32, float32) {
+			x, a := srgb.ColorFromEncodedColor(c)
+			return [3]float32{x.R, x.G, x.B}, a
+		},
+		fromLinCol: func(c color.Color) ([3]float32, float32) {
+			x, a := srgb.ColorFromLinearColor(c)
+			return [3]float32{x.R, x.G, x.B}, a
+		},
+		toNRGBA:  func(l [3]float32, a float32) color.NRGBA { return srgb.ColorFromLinear(l[0], l[1], l[2]).ToNRGBA(a) },
+		toRGBA:   func(l [3]float32, a float32) color.RGBA { return srgb.ColorFromLinear(l[0], l[1], l[2]).ToRGBA(a) },
+		toRGBA64: func(l [3]float32, a float32) color.RGBA64 { return srgb.ColorFromLinear(l[0], l[1], l[2]).ToRGBA64(a) },
+		toLinRGBA64: func(l [3]float32, a float32) color.RGBA64 {
+			return srgb.ColorFromLinear(l[0], l[1], l[2]).ToLinearRGBA64(a)
+		},
 		toXYZ:     func(l [3]float32) ciexyz.Color { return srgb.ColorFromLinear(l[0], l[1], l[2]).ToXYZ() },
 		fromXYZ:   func(c ciexyz.Color) [3]float32 { x := srgb.ColorFromXYZ(c); return [3]float32{x.R, x.G, x.B} },
 		linearise: srgb.LineariseColor, encode: srgb.EncodeColor,
@@ -63,14 +77,32 @@ var spaces = []space{
 	},
 	{
 		name: "adobe", from8: adobergb.From8Bit, from16: adobergb.From16Bit, to8: adobergb.To8Bit, to16: adobergb.To16Bit,
-		fromNRGBA: func(c color.NRGBA) ([3]float32, float32) { x, a := adobergb.ColorFromNRGBA(c); return [3]float32{x.R, x.G, x.B}, a },
-		fromRGBA:  func(c color.RGBA) ([3]float32, float32) { x, a := adobergb.ColorFromRGBA(c); return [3]float32{x.R, x.G, x.B}, a },
-		fromEnc:   func(c color.Color) ([3]float32, float32) { x, a := adobergb.ColorFromEncodedColor(c); return [3]float32{x.R, x.G, x.B}, a },
-		fromLinCol: func(c color.Color) ([3]float32, float32) { x, a := adobergb.ColorFromLinearColor(c); return [3]float32{x.R, x.G, x.B}, a },
-		toNRGBA:   func(l [3]float32, a float32) color.NRGBA { return adobergb.ColorFromLinear(l[0], l[1], l[2]).ToNRGBA(a) },
-		toRGBA:    func(l [3]float32, a float32) color.RGBA { return adobergb.ColorFromLinear(l[0], l[1], l[2]).ToRGBA(a) },
-		toRGBA64:  func(l [3]float32, a float32) color.RGBA64 { return adobergb.ColorFromLinear(l[0], l[1], l[2]).ToRGBA64(a) },
-		toLinRGBA64: func(l [3]float32, a float32) color.RGBA64 { return adobergb.ColorFromLinear(l[0], l[1], l[2]).ToLinearRGBA64(a) },
+		fromNRGBA: func(c color.NRGBA) ([3]float32, float32) {
+			x, a := adobergb.ColorFromNRGBA(c)
+			return [3]float32{x.R, x.G, x.B}, a
+		},
+		fromRGBA: func(c color.RGBA) ([3]float32, float32) {
+			x, a := adobergb.ColorFromRGBA(c)
+			return [3]float32{x.R, x.G, x.B}, a
+		},
+		fromEnc: func(c color.Color) ([3]float32, float32) {
+			x, a := adobergb.ColorFromEncodedColor(c)
+			return [3]float32{x.R, x.G, x.B}, a
+		},
+		fromLinCol: func(c color.Color) ([3]float32, float32) {
+			x, a := adobergb.ColorFromLinearColor(c)
+			return [3]float32{x.R, x.G, x.B}, a
+		},
+		toNRGBA: func(l [3]float32, a float32) color.NRGBA {
+			return adobergb.ColorFromLinear(l[0], l[1], l[2]).ToNRGBA(a)
+		},
+		toRGBA: func(l [3]float32, a float32) color.RGBA { return adobergb.ColorFromLinear(l[0], l[1], l[2]).ToRGBA(a) },
+		toRGBA64: func(l [3]float32, a float32) color.RGBA64 {
+			return adobergb.ColorFromLinear(l[0], l[1], l[2]).ToRGBA64(a)
+		},
+		toLinRGBA64: func(l [3]float32, a float32) color.RGBA64 {
+			return adobergb.ColorFromLinear(l[0], l[1], l[2]).ToLinearRGBA64(a)
+		},
 		toXYZ:     func(l [3]float32) ciexyz.Color { return adobergb.ColorFromLinear(l[0], l[1], l[2]).ToXYZ() },
 		fromXYZ:   func(c ciexyz.Color) [3]float32 { x := adobergb.ColorFromXYZ(c); return [3]float32{x.R, x.G, x.B} },
 		linearise: adobergb.LineariseColor, encode: adobergb.EncodeColor,
@@ -78,14 +110,34 @@ var spaces = []space{
 	},
 	{
 		name: "prophoto", from8: prophotorgb.From8Bit, from16: prophotorgb.From16Bit, to8: prophotorgb.To8Bit, to16: prophotorgb.To16Bit,
-		fromNRGBA: func(c color.NRGBA) ([3]float32, float32) { x, a := prophotorgb.ColorFromNRGBA(c); return [3]float32{x.R, x.G, x.B}, a },
-		fromRGBA:  func(c color.RGBA) ([3]float32, float32) { x, a := prophotorgb.ColorFromRGBA(c); return [3]float32{x.R, x.G, x.B}, a },
-		fromEnc:   func(c color.Color) ([3]float32, float32) { x, a := prophotorgb.ColorFromEncodedColor(c); return [3]float32{x.R, x.G, x.B}, a },
-		fromLinCol: func(c color.Color) ([3]float32, float32) { x, a := prophotorgb.ColorFromLinearColor(c); return [3]float32{x.R, x.G, x.B}, a },
-		toNRGBA:   func(l [3]float32, a float32) color.NRGBA { return prophotorgb.ColorFromLinear(l[0], l[1], l[2]).ToNRGBA(a) },
-		toRGBA:    func(l [3]float32, a float32) color.RGBA { return prophotorgb.ColorFromLinear(l[0], l[1], l[2]).ToRGBA(a) },
-		toRGBA64:  func(l [3]float32, a float32) color.RGBA64 { return prophotorgb.ColorFromLinear(l[0], l[1], l[2]).ToRGBA64(a) },
-		toLinRGBA64: func(l [3]float32, a float32) color.RGBA64 { return prophotorgb.ColorFromLinear(l[0], l[1], l[2]).ToLinearRGBA64(a) },
+		fromNRGBA: func(c color.NRGBA) ([3]float32, float32) {
+			x, a := prophotorgb.ColorFromNRGBA(c)
+			return [3]float32{x.R, x.G, x.B}, a
+		},
+		fromRGBA: func(c color.RGBA) ([3]float32, float32) {
+			x, a := prophotorgb.ColorFromRGBA(c)
+			return [3]float32{x.R, x.G, x.B}, a
+		},
+		fromEnc: func(c color.Color) ([3]float32, float32) {
+			x, a := prophotorgb.ColorFromEncodedColor(c)
+			return [3]float32{x.R, x.G, x.B}, a
+		},
+		fromLinCol: func(c color.Color) ([3]float32, float32) {
+			x, a := prophotorgb.ColorFromLinearColor(c)
+			return [3]float32{x.R, x.G, x.B}, a
+		},
+		toNRGBA: func(l [3]float32, a float32) color.NRGBA {
+			return prophotorgb.ColorFromLinear(l[0], l[1], l[2]).ToNRGBA(a)
+		},
+		toRGBA: func(l [3]float32, a float32) color.RGBA {
+			return prophotorgb.ColorFromLinear(l[0], l[1], l[2]).ToRGBA(a)
+		},
+		toRGBA64: func(l [3]float32, a float32) color.RGBA64 {
+			return prophotorgb.ColorFromLinear(l[0], l[1], l[2]).ToRGBA64(a)
+		},
+		toLinRGBA64: func(l [3]float32, a float32) color.RGBA64 {
+			return prophotorgb.ColorFromLinear(l[0], l[1], l[2]).ToLinearRGBA64(a)
+		},
 		toXYZ:     func(l [3]float32) ciexyz.Color { return prophotorgb.ColorFromLinear(l[0], l[1], l[2]).ToXYZ() },
 		fromXYZ:   func(c ciexyz.Color) [3]float32 { x := prophotorgb.ColorFromXYZ(c); return [3]float32{x.R, x.G, x.B} },
 		linearise: prophotorgb.LineariseColor, encode: prophotorgb.EncodeColor,
@@ -101,14 +153,32 @@ var spaces = []space{
 		},
 		to8:  func(v float32) uint8 { return displayp3.ColorFromLinear(v, 0, 0).ToNRGBA(1).R },
 		to16: func(v float32) uint16 { return displayp3.ColorFromLinear(v, 0, 0).ToRGBA64(1).R },
-		fromNRGBA: func(c color.NRGBA) ([3]float32, float32) { x, a := displayp3.ColorFromNRGBA(c); return [3]float32{x.R, x.G, x.B}, a },
-		fromRGBA:  func(c color.RGBA) ([3]float32, float32) { x, a := displayp3.ColorFromRGBA(c); return [3]float32{x.R, x.G, x.B}, a },
-		fromEnc:   func(c color.Color) ([3]float32, float32) { x, a := displayp3.ColorFromEncodedColor(c); return [3]float32{x.R, x.G, x.B}, a },
-		fromLinCol: func(c color.Color) ([3]float32, float32) { x, a := displayp3.ColorFromLinearColor(c); return [3]float32{x.R, x.G, x.B}, a },
-		toNRGBA:   func(l [3]float32, a float32) color.NRGBA { return displayp3.ColorFromLinear(l[0], l[1], l[2]).ToNRGBA(a) },
-		toRGBA:    func(l [3]float32, a float32) color.RGBA { return displayp3.ColorFromLinear(l[0], l[1], l[2]).ToRGBA(a) },
-		toRGBA64:  func(l [3]float32, a float32) color.RGBA64 { return displayp3.ColorFromLinear(l[0], l[1], l[2]).ToRGBA64(a) },
-		toLinRGBA64: func(l [3]float32, a float32) color.RGBA64 { return displayp3.ColorFromLinear(l[0], l[1], l[2]).ToLinearRGBA64(a) },
+		fromNRGBA: func(c color.NRGBA) ([3]float32, float32) {
+			x, a := displayp3.ColorFromNRGBA(c)
+			return [3]float32{x.R, x.G, x.B}, a
+		},
+		fromRGBA: func(c color.RGBA) ([3]float32, float32) {
+			x, a := displayp3.ColorFromRGBA(c)
+			return [3]float32{x.R, x.G, x.B}, a
+		},
+		fromEnc: func(c color.Color) ([3]float32, float32) {
+			x, a := displayp3.ColorFromEncodedColor(c)
+			return [3]float32{x.R, x.G, x.B}, a
+		},
+		fromLinCol: func(c color.Color) ([3]float32, float32) {
+			x, a := displayp3.ColorFromLinearColor(c)
+			return [3]float32{x.R, x.G, x.B}, a
+		},
+		toNRGBA: func(l [3]float32, a float32) color.NRGBA {
+			return displayp3.ColorFromLinear(l[0], l[1], l[2]).ToNRGBA(a)
+		},
+		toRGBA: func(l [3]float32, a float32) color.RGBA { return displayp3.ColorFromLinear(l[0], l[1], l[2]).ToRGBA(a) },
+		toRGBA64: func(l [3]float32, a float32) color.RGBA64 {
+			return displayp3.ColorFromLinear(l[0], l[1], l[2]).ToRGBA64(a)
+		},
+		toLinRGBA64: func(l [3]float32, a float32) color.RGBA64 {
+			return displayp3.ColorFromLinear(l[0], l[1], l[2]).ToLinearRGBA64(a)
+		},
 		toXYZ:     func(l [3]float32) ciexyz.Color { return displayp3.ColorFromLinear(l[0], l[1], l[2]).ToXYZ() },
 		fromXYZ:   func(c ciexyz.Color) [3]float32 { x := displayp3.ColorFromXYZ(c); return [3]float32{x.R, x.G, x.B} },
 		linearise: displayp3.LineariseColor, encode: displayp3.EncodeColor,
